@@ -41,7 +41,14 @@ ASSUMPTIONS = [
     "in part; the division `e / d` is modelled for the operands IDC* can produce (an ID* estimand is never a Fraction)",
     "pairs in which the same counterfactual variable V_S occurs both as an outcome and as a condition are left out of the "
     "checked domain (idc_star merges the two dicts, the condition's value silently wins)",
-    "known findings are keyed by (failure kind, graph + outcomes + conditions of the SHRUNK failing input up to renaming)",
+    "a wrong value / wrong Zero is classified by the FIRST step of IDC*'s own chain of claims that an independent exact "
+    "evaluation shows to be broken on that input: 'reassociation' (get_new_outcomes_and_conditions changes "
+    "P(outcomes | conditions)), 'exchange' (the line-4 exchange changes it), 'inherited' (the final id_star call is wrong by "
+    "itself: keyed by the C07 finding it shrinks to), 'F11' (numerator right, Expression.conditional normalises over bound / "
+    "subscript-only names; confirmed by evaluating the repaired fraction); these classes have ONE coarse finding key each, "
+    "because the broken step is identified on every such input, not inferred from the input's shape; any other failure "
+    "(including every crash) is keyed by (failure kind, graph + outcomes + conditions of the SHRUNK failing input up to "
+    "renaming). A new defect that only ever co-occurs with an earlier broken step on the same input would be masked",
 ]
 EXHAUSTIVE = {"quick": False, "thorough": False}
 LEANCHECK_MODULES = ["Y0.Model.IdcStar", "Y0.Props.C08"]
@@ -223,23 +230,37 @@ def _explain(case, strategy, n_models):
 
 
 def _f11_repaired(case, expr):
-    """if `expr` is `num / Sum[R](num)` (what Expression.conditional builds): the same fraction normalised over the FREE
-    outcome variables of `num` among R only, as a marginalisation of outcome occurrences (F11 repaired: no sum over
-    variables that are bound inside `num` or occur only as subscripts, no capture of subscripts)"""
+    """if `expr` is `num / Sum[R](num)` (what Expression.conditional builds): the candidate repairs of F11 — the same fraction
+    normalised over the FREE outcome variables of `num` among R only (no sum over variables bound inside `num` or occurring
+    only as subscripts).  A summed outcome variable X either also drives the same-named unstarred subscripts (they were
+    made from the pillow node X by line 6) or leaves them alone (they are literal values of the original event): both
+    readings are offered per variable, since the estimand does not tell them apart (F10/M3)."""
     if isinstance(expr, str) or expr[0] != "frac":
-        return None
+        return []
     num, den = expr[1], expr[2]
     if den == num:
         ranges = []
     elif den[0] == "sum" and den[2] == num:
         ranges = [int(v[1]) for v in den[1]]
     else:
-        return None
+        return []
     free = set()
     for fn in S.free_names(num):
         free |= fn
     keep = sorted(n for n in ranges if n in free)
-    return ["frac", num, ["osum", [K.canon_var(K.mkvar(n)) for n in keep], num] if keep else num]
+    if not keep:
+        return [["frac", num, num]]
+    out = []
+    for mask in range(2 ** len(keep)):
+        both = [n for i, n in enumerate(keep) if mask >> i & 1]
+        only = [n for i, n in enumerate(keep) if not mask >> i & 1]
+        d = num
+        if only:
+            d = ["osum", [K.canon_var(K.mkvar(n)) for n in only], d]
+        if both:
+            d = ["sum", [K.canon_var(K.mkvar(n)) for n in both], d]
+        out.append(["frac", num, d])
+    return out
 
 
 def _judge(case, res, exc, n_models, strategy=None):
@@ -272,8 +293,8 @@ def _judge(case, res, exc, n_models, strategy=None):
     if why is not None:
         return msg + f" [first broken step: {why}: {detail['before']} -> {detail['after']}]", why
     if kind == "value":
-        rep = _f11_repaired(case, expr)
-        if rep is not None and S.check_estimand(g, jt, rep, case.get("seed", 0), n_models=n_models, cond=cond) is None:
+        reps = [r for r in _f11_repaired(case, expr) if r != expr]
+        if any(S.check_estimand(g, jt, rep, case.get("seed", 0), n_models=n_models, cond=cond) is None for rep in reps):
             return msg + " [numerator right; only the normalisation of Expression.conditional is wrong: F11]", "F11"
     return msg, kind
 
